@@ -32,11 +32,17 @@ type Cfg struct {
 	Consumers int  `json:"consumers"`
 	Retry     bool `json:"retry"`
 	Block     bool `json:"block_on_overflow"`
+	// BatchMax > 0 adds the (deprecated but public) WithBatcher option on top of the persistent queue:
+	// requests are merged up to BatchMin items and split into parts of at most BatchMax items.
+	BatchMax int `json:"batch_max,omitempty"`
+	BatchMin int `json:"batch_min,omitempty"`
 }
 
 // OpS is one step of the main run.
 type OpS struct {
 	Kind string `json:"kind"` // enq | rel | restart
+	// enq: number of items (log records) of the request, default 1
+	Items int `json:"items,omitempty"`
 	// rel: which parked hand-off (index modulo the number parked) and its outcome
 	Pick    int    `json:"pick,omitempty"`
 	Outcome string `json:"outcome,omitempty"` // ok | perm | transient
@@ -60,11 +66,14 @@ var (
 	errPermanent = errors.New("scripted permanent failure")
 )
 
-func payload(id int64) plog.Logs {
+func payload(id int64, n int) plog.Logs {
 	ld := plog.NewLogs()
-	lr := ld.ResourceLogs().AppendEmpty().ScopeLogs().AppendEmpty().LogRecords().AppendEmpty()
-	lr.Attributes().PutInt(pitems.IDKey, id)
-	lr.Body().SetStr("request body")
+	sl := ld.ResourceLogs().AppendEmpty().ScopeLogs().AppendEmpty()
+	for i := 0; i < n; i++ {
+		lr := sl.LogRecords().AppendEmpty()
+		lr.Attributes().PutInt(pitems.IDKey, id+int64(i))
+		lr.Body().SetStr("request body")
+	}
 	return ld
 }
 
@@ -89,6 +98,17 @@ func options(cfg Cfg) []exporterhelper.Option {
 		panic(err)
 	}
 	opts := []exporterhelper.Option{exporterhelper.WithQueue(q), exporterhelper.WithTimeout(exporterhelper.TimeoutConfig{Timeout: 0})}
+	if cfg.BatchMax > 0 {
+		b := exporterhelper.NewDefaultBatcherConfig()
+		b.Enabled = true
+		b.FlushTimeout = 2 * time.Millisecond
+		b.MinSize = int64(cfg.BatchMin)
+		b.MaxSize = int64(cfg.BatchMax)
+		if err := b.Validate(); err != nil {
+			panic(err)
+		}
+		opts = append(opts, exporterhelper.WithBatcher(b))
+	}
 	if cfg.Retry {
 		r := configretry.NewDefaultBackOffConfig()
 		r.InitialInterval = time.Hour
@@ -108,8 +128,8 @@ func options(cfg Cfg) []exporterhelper.Option {
 // main run
 
 type parked struct {
-	id int64
-	ch chan string
+	ids []int64
+	ch  chan string
 }
 
 type mainRun struct {
@@ -125,29 +145,32 @@ type mainRun struct {
 
 func (m *mainRun) push(_ context.Context, v any) error {
 	ids := idsOf(v)
-	var id int64 = -1
-	if len(ids) > 0 {
-		id = ids[0]
-	}
 	m.mu.Lock()
 	inc := m.inc
 	m.mu.Unlock()
-	p := &parked{id: id, ch: make(chan string, 1)}
+	p := &parked{ids: ids, ch: make(chan string, 1)}
 	m.mu.Lock()
 	m.parked = append(m.parked, p)
 	m.mu.Unlock()
-	m.rec.Event("handoff", id, inc)
+	for _, id := range ids {
+		m.rec.Event("handoff", id, inc)
+	}
 	out := <-p.ch
+	final := func() {
+		for _, id := range ids {
+			m.rec.Event("final", id, inc)
+		}
+	}
 	switch out {
 	case "ok":
-		m.rec.Event("final", id, inc)
+		final()
 		return nil
 	case "perm":
-		m.rec.Event("final", id, inc)
+		final()
 		return consumererror.NewPermanent(errPermanent)
 	default:
 		if !m.cfg.Retry {
-			m.rec.Event("final", id, inc) // without retry every failure is final
+			final() // without retry every failure is final
 		} else {
 			m.mu.Lock()
 			m.backoff++
@@ -269,13 +292,22 @@ func runMain(s *Script) (*xh.Recorder, *vt.Finding, map[string]int) {
 		switch op.Kind {
 		case "enq":
 			id := m.nextID
-			m.nextID++
+			n := op.Items
+			if n < 1 {
+				n = 1
+			}
+			m.nextID += int64(n)
 			ctx, cancel := context.WithTimeout(context.Background(), 30*time.Millisecond)
-			err := m.exp.Consume(ctx, payload(id))
+			err := m.exp.Consume(ctx, payload(id, n))
 			cancel()
 			if err == nil {
-				m.rec.Event("accepted", id, m.inc)
+				for i := 0; i < n; i++ {
+					m.rec.Event("accepted", id+int64(i), m.inc)
+				}
 				stats["accepted"]++
+				if m.cfg.BatchMax > 0 && n > m.cfg.BatchMax {
+					stats["request-split-into-parts"]++
+				}
 			} else {
 				stats["refused"]++
 			}
@@ -623,6 +655,10 @@ func gen(all bool) func(t *rapid.T) Script {
 			Retry:     rapid.Bool().Draw(t, "retry"),
 			Block:     rapid.IntRange(0, 4).Draw(t, "block") == 0,
 		}
+		if rapid.IntRange(0, 2).Draw(t, "legacy_batcher") == 0 {
+			s.Cfg.BatchMax = rapid.IntRange(1, 3).Draw(t, "batch_max")
+			s.Cfg.BatchMin = rapid.IntRange(0, s.Cfg.BatchMax).Draw(t, "batch_min")
+		}
 		n := rapid.IntRange(1, 25).Draw(t, "nops")
 		if all {
 			n = rapid.IntRange(1, 12).Draw(t, "nops")
@@ -630,7 +666,7 @@ func gen(all bool) func(t *rapid.T) Script {
 		for i := 0; i < n; i++ {
 			switch k := rapid.IntRange(0, 9).Draw(t, "op"); {
 			case k <= 4:
-				s.Ops = append(s.Ops, OpS{Kind: "enq"})
+				s.Ops = append(s.Ops, OpS{Kind: "enq", Items: rapid.IntRange(1, 4).Draw(t, "items")})
 			case k <= 8:
 				s.Ops = append(s.Ops, OpS{Kind: "rel", Pick: rapid.IntRange(0, 2).Draw(t, "pick"),
 					Outcome: rapid.SampledFrom([]string{"ok", "ok", "perm", "transient", "transient"}).Draw(t, "outcome")})
